@@ -6,6 +6,7 @@
 mod alloc;
 mod comp;
 mod gen;
+mod lfu;
 mod lru;
 mod prng;
 mod runner;
@@ -216,6 +217,65 @@ fn slice_comp(a: &Args, t: &mut Trace, which: u32) {
     }
 }
 
+const FPS: [f64; 5] = [0.01, 1e-9, 0.5, 0.999, 0.1];
+
+fn slice_lfu(a: &Args, t: &mut Trace, which: u32) {
+    for i in 0..a.n {
+        if i % a.shard.1 != a.shard.0 {
+            continue;
+        }
+        let mut r = rng_for(a.seed, i + 1_000_000 * which as u64);
+        let len = r.range(a.len / 4 + 1, a.len) as usize;
+        match which {
+            4 => {
+                let (w, prot, prob) = if r.chance(1, 25) {
+                    (r.range(1, 3), r.range(8, 20), r.range(2, 6))
+                } else {
+                    (r.range(1, 3), r.range(1, 3), r.range(1, 3))
+                };
+                let samples = *r.pick(&[1u64, 2, 3, 5, 8, 16, 64]);
+                let fpi = r.below(FPS.len() as u64) as usize;
+                let khmode = r.below(3);
+                let hmode = r.below(5);
+                let mut kg = gen::KeyGen::new(w + prot + prob + 4);
+                let mut vg = gen::ValGen(1000);
+                let id = format!("wtiny-s{}-i{}", a.seed, i);
+                let meta = format!("w={} prot={} prob={} samples={} fpi={} kh={} hasher={}", w, prot, prob, samples, fpi, khmode, hmode);
+                run_case(t, &id, 4, &[], &meta,
+                    &|| Box::new(lfu::mk_wtiny(w as usize, prot as usize, prob as usize, samples as usize, FPS[fpi], khmode, hmode)),
+                    &mut |step, snap| if step >= len { None } else { Some(gen::wtiny_op(&mut r, &mut kg, &mut vg, snap)) },
+                    &tag);
+            }
+            5 => {
+                let size = *r.pick(&[1u64, 2, 3, 4, 7, 8, 16, 33, 64]);
+                let samples = *r.pick(&[1u64, 2, 3, 4, 7, 16, 64]);
+                let fpi = r.below(FPS.len() as u64) as usize;
+                let mut pool = Vec::new();
+                let id = format!("tiny-s{}-i{}", a.seed, i);
+                let meta = format!("size={} samples={} fpi={}", size, samples, fpi);
+                run_case(t, &id, 5, &[], &meta,
+                    &|| Box::new(lfu::mk_tiny(size as usize, samples as usize, FPS[fpi])),
+                    &mut |step, _| if step >= len { None } else { Some(gen::tiny_op(&mut r, &mut pool)) },
+                    &tag);
+            }
+            _ => {
+                let samples = r.range(0, 8);
+                let ctor = r.below(2);
+                let samples = if ctor == 0 { 5 } else { samples };
+                let mc = r.below(500) as i64 - 50;
+                let mut pool = Vec::new();
+                let id = format!("sampled-s{}-i{}", a.seed, i);
+                let meta = format!("ctor={}", ctor);
+                let cfg = [mc as i128, samples as i128];
+                run_case(t, &id, 6, &cfg, &meta,
+                    &|| Box::new(lfu::mk_sampled(mc, samples as usize, ctor)),
+                    &mut |step, _| if step >= len { None } else { Some(gen::sampled_op(&mut r, &mut pool)) },
+                    &tag);
+            }
+        }
+    }
+}
+
 /// exhaustive closure of small RawLRU configurations (caps 1..=a.n)
 fn slice_lru_bfs(a: &Args, t: &mut Trace) {
     for cap in 1..=a.n {
@@ -302,6 +362,10 @@ pub fn mk_subject(kind: u32, cfg: &[i128], meta: &std::collections::HashMap<Stri
             mk_twoq(size, rr, gr, m("hasher"))
         }
         3 => mk_arc(cfg[0] as usize, m("hasher")),
+        4 => Box::new(lfu::mk_wtiny(m("w") as usize, m("prot") as usize, m("prob") as usize, m("samples") as usize,
+            FPS[m("fpi") as usize], m("kh"), m("hasher"))),
+        5 => Box::new(lfu::mk_tiny(m("size") as usize, m("samples") as usize, FPS[m("fpi") as usize])),
+        6 => Box::new(lfu::mk_sampled(cfg[0] as i64, cfg[1] as usize, m("ctor"))),
         _ => panic!("unknown kind"),
     }
 }
@@ -400,6 +464,9 @@ fn main() {
         "slru" => slice_comp(&a, &mut t, 1),
         "twoq" => slice_comp(&a, &mut t, 2),
         "arc" => slice_comp(&a, &mut t, 3),
+        "wtiny" => slice_lfu(&a, &mut t, 4),
+        "tiny" => slice_lfu(&a, &mut t, 5),
+        "sampled" => slice_lfu(&a, &mut t, 6),
         "replay" => slice_replay(&a, &mut t),
         "lru_bfs" => slice_lru_bfs(&a, &mut t),
         s => {
